@@ -14,8 +14,10 @@ m = {
     "engines": [{"name": "ivyfacts+ivy", "path": "tools/ivyfacts.cc, ivy/",
                  "serves_properties": sorted(claims['checks'].keys()),
                  "kind_free_text": "libTooling (clang 14) fact extractor emitting per-function CFGs with typed access paths; "
-                                   "Python dataflow rules (inlining with poll-method expansion, must-pass-through, lockset, "
-                                   "disjunctive counter-delta analysis, edge dominance, branch-atom must analysis)"}],
+                                   "Python analyses over the facts: normal form (flag partitioning, copy propagation, list idioms, "
+                                   "inlining with poll-method expansion), role-based anchors and calling contexts, must-pass-through, "
+                                   "locksets, disjunctive counter-delta analysis, branch-atom must analysis, finite-domain abstract "
+                                   "evaluation, and per-module path-sensitive abstract execution of the facts over typestate/heap domains"}],
     "checks": [],
     "notes": "All checks are static: nothing in a registered command executes ivykis code. Exit 0 = all obligations "
              "discharged; 1 + VIOLATION line = an obligation failed that known_findings.json does not list; 2 = analysis "
